@@ -248,6 +248,48 @@ def run(prog, rep, tier):
     if n155 < 2:
         raise CheckerError("R15.5: %d classification calls in process_path (expected the explicit and the walk branch)" % n155)
 
+    # ------------------------------------------------------------ R15.6 whether an entry is listed depends on that entry alone
+    # "Naming a directory is equivalent to naming every regular file beneath it": an entry is listed or
+    # not by its own kind and name.  A walk loop that consults a collection it fills itself (a set of
+    # paths "already seen", a counter, a map of names) makes the listing depend on what was walked
+    # before: two paths that resolve to one file (`current -> app.log`) are then listed once beneath the
+    # directory but read twice when both are named.
+    R156 = rep.rule("R15.6", "the walk loop of process_path takes no decision from a collection it fills itself")
+    wl_ = [c for c in pb_.live_calls() if c.o.endswith("Iterator::next") and "jwalk" in (c.callee.get("self") or "")]
+    if len(wl_) != 1:
+        raise CheckerError("process_path: %d next() calls on the walker" % len(wl_))
+    hs_ = [h for (_tl, h) in pb_.back_edges() if wl_[0].bb in pb_.loop_blocks(h)]
+    if not hs_:
+        raise CheckerError("process_path: the walker's next() is not in a loop")
+    LW = pb_.loop_blocks(min(hs_, key=lambda h: len(pb_.loop_blocks(h))))
+    stateful = []
+    ncoll = 0
+    for c in pb_.live_calls():
+        if c.bb not in LW:
+            continue
+        st_ = (c.callee.get("self") or "")
+        nm_ = (c.o or c.d).split("::")[-1]
+        if not any(k_ in st_ for k_ in ("HashSet", "HashMap", "BTreeSet", "BTreeMap", "Vec<", "VecDeque")):
+            continue
+        ncoll += 1
+        if nm_ in ("insert", "contains", "contains_key", "get", "replace", "remove", "take", "entry", "binary_search", "iter", "len", "is_empty", "last", "first"):
+            # does the result feed a branch inside the loop?
+            feeds = False
+            for bb in LW:
+                t = pb_.term(bb)
+                if t[0] == "switch":
+                    for o_ in pb_.origins(t[1], through_calls=("ops::Not>::not", "::is_some", "::is_none", "::is_ok", "::is_err", "::unwrap_or", "::any", "::all")):
+                        if o_[0] == "call" and o_[1] == c.bb:
+                            feeds = True
+            if feeds:
+                stateful.append((st_.split("<")[0].split("::")[-1] + "::" + nm_, c.line))
+    rep.examined(R156, pb_.path + "|walk-loop", sample={"loop_blocks": len(LW), "collection_calls_in_loop": ncoll, "decisions_taken_from_a_collection": stateful})
+    if ncoll == 0:
+        raise CheckerError("R15.6: no collection call in the walk loop (the push of the listed paths was expected)")
+    if stateful:
+        rep.violation(R156, pb_.path + "|walk-loop|stateful-skip", "process_path (line %d): the walk loop decides about an entry from %s, a collection filled by earlier entries; "
+                      "a second path to an already listed file (an alias `current -> app.log`, a linked sub-directory) is dropped beneath the directory but read when named" % (stateful[0][1], stateful[0][0]))
+
     return rep.finish(
         "Static necessary-condition check of path expansion: the iterated jwalk walker is built with follow_links(true) and sort(true) and only "
         "entries passing file_type().is_file() become sources; explicit files are classified with unparseable_are_text=true and walked files "
